@@ -359,6 +359,19 @@ func (s *sess) stepMigrate() bool {
 	return moved
 }
 
+// stepMigrateRaw grants the rotation loop one iteration and reports whether
+// the window moved; the model is left to the caller.
+func (s *sess) stepMigrateRaw() bool {
+	s.t.Helper()
+	pre := s.S.VerifSnapshot().Offset
+	s.logf("step(migrate, raw) [now=%d off=%d]", s.now, s.M.Offset)
+	if !world.Step(s.S.S, "migrate") {
+		s.checkPanics("rotation step")
+		s.fail("rotation loop did not complete the granted step")
+	}
+	return s.S.VerifSnapshot().Offset != pre
+}
+
 func (s *sess) stepImpact() {
 	s.t.Helper()
 	s.logf("step(impact) [now=%d off=%d]", s.now, s.M.Offset)
